@@ -74,7 +74,7 @@ func runT2J(w *W, cv *t2j.BinaryConv, desc *thrift.TypeDescriptor, src []byte, e
 	}
 	var res t2jOutcome
 	if !env.DoInto {
-		res.Out, res.Err = cv.Do(ctx, desc, doc)
+		callOn(w, func() { res.Out, res.Err = cv.Do(ctx, desc, doc) })
 	} else {
 		c := env.Prefix
 		switch env.CapMode {
@@ -93,7 +93,7 @@ func runT2J(w *W, cv *t2j.BinaryConv, desc *thrift.TypeDescriptor, src []byte, e
 		for i := 0; i < env.Prefix; i++ {
 			buf = append(buf, byte(0xC0+i%16))
 		}
-		res.Err = cv.DoInto(ctx, desc, doc, &buf)
+		callOn(w, func() { res.Err = cv.DoInto(ctx, desc, doc, &buf) })
 		if len(buf) > cap(buf) {
 			w.Failf("len-exceeds-cap", nil, "DoInto returned len(buf)=%d > cap(buf)=%d (env %s)", len(buf), cap(buf), env)
 		}
